@@ -46,12 +46,10 @@ func screenCheck(hi *Hist, frames []*Frame, facts []*BarFacts, prop string) *Vio
 	} else {
 		vt = NewVT(0, 0)
 	}
-	lastFrameOf := map[int]int{}
-	for k, f := range frames {
-		for _, g := range f.Groups {
-			lastFrameOf[g.Bar] = k
-		}
-	}
+	// a poppable bar is popped out by its third finished render (the library counts the renders of a
+	// finished bar: 0 normal position, 1 hand-over / pop priority, 2 popped); the spy sees every render,
+	// including those whose rows are clipped away by the terminal height
+	finishedRenders := map[int]int{}
 	var persist []string
 	for k, f := range frames {
 		if f.W.Err != "" {
@@ -78,8 +76,17 @@ func screenCheck(hi *Hist, frames []*Frame, facts []*BarFacts, prop string) *Vio
 		firstLive := len(expected)
 		var popped []string
 		poppedRows := 0
+		popNow := map[int]bool{}
+		for bar, recs := range f.Spy {
+			if len(recs) > 0 && (recs[0].Completed || recs[0].Aborted) {
+				finishedRenders[bar]++
+				if finishedRenders[bar] == 3 && bar >= 0 && bar < len(facts) && poppable(hi, facts[bar]) {
+					popNow[bar] = true
+				}
+			}
+		}
 		for _, g := range f.Groups {
-			if g.Bar >= 0 && g.Bar < len(facts) && poppable(hi, facts[g.Bar]) && isTerminalFlags(g.Flags) && lastFrameOf[g.Bar] == k && k < len(frames)-1 {
+			if popNow[g.Bar] {
 				for _, r := range f.Rows[g.From:g.To] {
 					popped = append(popped, stripSGR(r.Text))
 				}
